@@ -273,7 +273,7 @@ impl Property for C15 {
             if rng.chance(1, 6) {
                 events.push(Event { trig: Trigger::Iter(rng.below(6)), act: Action::Lines((0..rng.range(1, 4)).map(|_| gen_fuzz_line(rng)).collect()) });
             }
-            return Scn { guest: None, storm: Some(Storm { base, words, er }), events, cfg: SysCfg { wait_start: false, clock, clock_seed, step_cap: 4000 } };
+            return Scn { guest: None, storm: Some(Storm { base, words, er }), events, cfg: SysCfg { wait_start: false, clock, clock_seed, step_cap: 4000, print_msgs: false } };
         }
         // ---- structured: a healthy guest, corrupted while it runs
         let guest = gen_guest(rng);
@@ -311,7 +311,7 @@ impl Property for C15 {
                 events.push(Event { trig: Trigger::AtPc { pc: w.trapa_pc, nth: 0 }, act: Action::SetReg { r: rng.below(2) as u8, val: if rng.chance(1, 2) { adv_value(rng) } else { *rng.pick(&[0u32, 104, 105, 113, 0x8000_0000]) } } });
             }
         }
-        Scn { guest: Some(guest), storm: None, events, cfg: SysCfg { wait_start: rng.chance(1, 10), clock, clock_seed, step_cap: est * 4 + 3000 } }
+        Scn { guest: Some(guest), storm: None, events, cfg: SysCfg { wait_start: rng.chance(1, 10), clock, clock_seed, step_cap: est * 4 + 3000, print_msgs: rng.chance(1, 8) } }
     }
 
     fn execute(scn: &Scn, stats: &mut Stats) -> Verdict {
